@@ -367,6 +367,7 @@ func (c *Ctx) c06One(s *cfStmt, sample bool) (lines, impl []string) {
 	var sb strings.Builder
 	s.src(&sb)
 	body := sb.String()
+	var ltNoopt []string
 	for _, opt := range []bool{false, true} {
 		vm := goat.New()
 		if _, err := vm.VerifEval(cfPrelude, true); err != nil {
@@ -442,6 +443,14 @@ func (c *Ctx) c06One(s *cfStmt, sample bool) (lines, impl []string) {
 		}
 		lines = append(lines, fmt.Sprintf("cf %s %s | %s", mode, strings.Join(toks, " "), strings.Join(lt, " ")))
 		impl = append(impl, encOps(real))
+		if !opt {
+			ltNoopt = lt
+		} else if ltNoopt != nil {
+			// the object of C02.opt_transparent: the program assembled from the model's optimization of the
+			// UNoptimized leaves must be the real compiler's optimized body
+			lines = append(lines, fmt.Sprintf("cf optleaves %s | %s", strings.Join(toks, " "), strings.Join(ltNoopt, " ")))
+			impl = append(impl, encOps(real))
+		}
 	}
 	// behaviour: native Go semantics vs goatlang, both optimizer settings
 	m := &cfRun{fuel: 25}
